@@ -14,8 +14,13 @@ Decided:
   total      no explicit panic is reachable from the two entry points (X25519 is total: zero and
              small-order inputs must give the all-zero output, not a panic)
   wrappers   x25519::dh / base delegate to curve25519 / curve25519_base
-Not decided: field multiplication / squaring / canonical reduction as numbers (radix consistency of the
-64-bit field code is decided under C15)."""
+  backends   all of the above on the MIR of BOTH limb backends (default and --features force-32bits)
+  limbpoly   add, sub, neg, mul, square, mul_small, square_repeatdly == the polynomial function modulo 2^255-19 (shared with C15)
+  fe-bounds  fe64: one bound vector B is closed under every producer of an Fe and excludes every overflow assert / lossy
+             narrowing; fe32: tight/loose contracts of the ref10 discipline (interval abstract interpretation)
+  decode32   fe32 from_bytes == LE(bytes) - 2^255 * bit255 (mod p) as a polynomial identity over the input bytes
+  encode     to_packed / to_bytes: reduction identity modulo p with the folded quotients, reduced output digits, bit packing
+Not decided: that the quotient folded back by the canonical reduction is floor(H / p) for every input."""
 import re
 
 from .. import mir, pred, rules, ssa, termbits, fexpr
@@ -24,7 +29,7 @@ from ..mir import fmt, walk, const_val
 from ..spec import curve
 
 EXPLANATION = __doc__
-TECHNIQUE = "term-domain dataflow with bit provenance (clamp, limb decoding), polynomial normal form of the ladder step vs. RFC 7748, exponent evaluation of addition chains, call-graph panic reachability"
+TECHNIQUE = "interval abstract interpretation over ssa terms with exact carry/remainder relations and trace partitioning on carries (inductive limb-bound invariants, overflow-assert discharge); limb-polynomial identities; term-domain dataflow with bit provenance (clamp, limb decoding), polynomial normal form of the ladder step vs. RFC 7748, exponent evaluation of addition chains, call-graph panic reachability"
 
 
 def clamp_bits(ctx, P, path, argname="arg1"):
